@@ -373,6 +373,8 @@ def classify(code, meta):
     st = meta['st']
     if code == 7 and st['k'] == 'annot2' and any(re.search(st['rx'], t) for t in (st['body'], 'cr', '2020-01-02T03:04:05')):
         return "insert_annotation/content-regex-matches-own-annotation"
+    if code == 7 and st['k'] in ('bm2', 'ref2', 'annot2') and re.search(r'\^|\$|\\b|\\B|\(\?[=!<]', st.get('rx', '')):
+        return "content-regex/context-dependent-pattern-searched-twice"
     if code == 4 and squeeze(tl.raw(meta['pre'])) == squeeze(tl.raw(meta['post'])):
         return "strip_tags/double-space-created-by-concatenation"
     return None
